@@ -145,6 +145,7 @@ type agg struct {
 	lastSeed   uint64
 	cut        bool
 	wallUS     int64
+	slowest    []map[string]interface{} // the few slowest runs (profile, seed, class, wall)
 }
 
 // Check runs a property's check and returns the process exit status.
@@ -353,6 +354,13 @@ func (a *agg) add(res Result, jobs []Job) {
 	a.events += res.Events
 	a.draws += res.Draws
 	a.wallUS += res.WallUS
+	if n := len(a.slowest); n < 3 || res.WallUS > a.slowest[n-1]["wall_us"].(int64) {
+		a.slowest = append(a.slowest, map[string]interface{}{"profile": res.Profile, "seed": fmt.Sprint(res.Seed), "class": res.Class, "wall_us": res.WallUS})
+		sort.SliceStable(a.slowest, func(i, j int) bool { return a.slowest[i]["wall_us"].(int64) > a.slowest[j]["wall_us"].(int64) })
+		if len(a.slowest) > 3 {
+			a.slowest = a.slowest[:3]
+		}
+	}
 	a.perProfile[res.Profile]++
 	if res.Sweep {
 		a.sweepRun++
